@@ -126,6 +126,13 @@ _TOK = re.compile(r"""
 """, re.X)
 
 
+def _unquote(tok):
+    """$"name" and $name denote the same symbol."""
+    if len(tok) > 2 and tok[1] == '"' and tok[-1] == '"':
+        return tok[0] + tok[2:-1]
+    return tok
+
+
 def _lex(text):
     toks = []
     line = 1
@@ -143,7 +150,7 @@ def _lex(text):
             toks.append(("nl", "\n", line))
             line += 1
             continue
-        toks.append((k, m.group(), line))
+        toks.append((k, _unquote(m.group()) if k == "name" else m.group(), line))
     toks.append(("nl", "\n", line))
     toks.append(("eof", "", line))
     return toks
